@@ -54,14 +54,15 @@ def _one_test(args):
 
 
 def _one_discovery(args):
-    info, method, n_vars, L, T, alpha, n, seed, kind, k = args
+    info, method, n_vars, L, T, alpha, n, seed, kind, k = args[:10]
+    alpha_f = args[10] if len(args) > 10 else alpha      # (forward level, when different from the final, backward, level)
     from causationentropy.core.discovery import discover_network
 
     rng = np.random.default_rng(seed)
     data = rng.poisson(3.0, size=(T, n_vars)).astype(float) if kind == "count" else rng.standard_normal((T, n_vars))
     with warnings.catch_warnings(), quiet():
         warnings.simplefilter("ignore")
-        G = discover_network(data, method=method, information=info, max_lag=L, alpha_forward=alpha, alpha_backward=alpha, n_shuffles=n, k_means=k)
+        G = discover_network(data, method=method, information=info, max_lag=L, alpha_forward=alpha_f, alpha_backward=alpha, n_shuffles=n, k_means=k)
     return G.number_of_edges() / float(n_vars * n_vars * L)
 
 
@@ -142,6 +143,25 @@ def check(run, driver):
         if mean - slack > 5 * 0.05:
             run.prop_fail("on independent white noise the discovered network contains a large fraction of the candidate links", row,
                           {"clause": "network", "estimator": info, "method": method})
+    # (c') a permissive screening level with a strict final level: the network is still governed by the FINAL (backward) level
+    splans = [("gaussian", m_) for m_ in ("standard", "alternative")] + ([("knn", "standard"), ("kde", "alternative")] if thorough else [])
+    a_f, a_b, n_s = 0.5, 0.02, 49
+    m_s = 4096 if thorough else 2048
+    stasks = [(info, method, 3, 2, 60, a_b, n_s, int(rng.integers(0, 2**31)), "continuous", 3, a_f) for info, method in splans for _ in range(m_s if info == "gaussian" else 512)]
+    with ProcessPoolExecutor(16) as ex:
+        sfr = list(ex.map(_one_discovery, stasks, chunksize=16))
+    idx = 0
+    for info, method in splans:
+        m = m_s if info == "gaussian" else 512
+        f = sfr[idx: idx + m]; idx += m
+        mean = float(np.mean(f)); slack = math.sqrt(math.log(ntests / BUDGET) / (2 * m)); lvl = float(level_bound(a_b, n_s))
+        row = {"estimator": info, "method": method, "runs": m, "alpha_forward": a_f, "alpha_backward": a_b, "n_shuffles": n_s, "mean_fraction_of_candidate_links": mean,
+               "hoeffding_slack": slack, "proved_single_test_level": lvl, "alarm_above": 5 * lvl + slack}
+        dtable.append(row)
+        run.case("noise-screening-" + info + "-" + method, [info, method, mean], True)
+        if mean - slack > 5 * lvl:
+            run.prop_fail("on independent white noise, with a permissive forward and a strict backward level, the network keeps a fraction of the candidate links far above the final level",
+                          row, {"clause": "network", "estimator": info, "method": method})
     run.extra["network_measurements"] = dtable
     run.extra["explanation"] = (
         "Proof: shuffle_level (every statistic, every data set, N, n, alpha) + the tie of shuffle_test to the model. The literal bound "
